@@ -1592,8 +1592,12 @@ func ruleC14R5(w *World, r *Report) {
 			return "too deep"
 		}
 		if b, isC := constBool(v); isC {
+			if !b && depth == 0 {
+				return "" // a reset of the flag
+			}
 			if !b {
-				return ""
+				// false on one path and the predicate on another: the mode is not entered after some identifier, `)` or `]`
+				return "the constant false on some path where the predicate is stored on others: the mode is not entered every time the previous token asks for it"
 			}
 			return "the constant true"
 		}
